@@ -781,3 +781,123 @@ func finishDex(in *BlockInput, c uint64, liq, hold *big.Int, pts map[string]*big
 	}
 	rep.Stats["dex_pool_states_compared"]++
 }
+
+// CompareProposerView compares the block result the proposer's mempool built (the path on which failing transactions
+// are executed and dropped) with the result of validating the finished block: the same transactions in the same order and
+// the same events. An event that only the proposer's result holds was emitted by a transaction that is not part of the
+// block: it leaked out of a failed transaction.
+func CompareProposerView(proposer, validated *lib.BlockResult) (out []Problem) {
+	if proposer == nil || validated == nil {
+		return nil
+	}
+	if len(proposer.Transactions) != len(validated.Transactions) {
+		out = append(out, Problem{"proposer-result-differs-from-validated-block what=transactions", fmt.Sprintf("proposer built %d transaction results, validation %d", len(proposer.Transactions), len(validated.Transactions))})
+	} else {
+		for i := range proposer.Transactions {
+			if proposer.Transactions[i].TxHash != validated.Transactions[i].TxHash {
+				out = append(out, Problem{"proposer-result-differs-from-validated-block what=transactions", fmt.Sprintf("transaction %d: %s vs %s", i, proposer.Transactions[i].TxHash, validated.Transactions[i].TxHash)})
+				break
+			}
+		}
+	}
+	render := func(ev *lib.Event) string {
+		bz, _ := lib.MarshalJSON(ev)
+		return string(bz)
+	}
+	count := map[string]int{}
+	for _, ev := range proposer.Events {
+		count[render(ev)]++
+	}
+	for _, ev := range validated.Events {
+		count[render(ev)]--
+	}
+	var extra, missing []string
+	for k, n := range count {
+		if n > 0 {
+			extra = append(extra, k)
+		} else if n < 0 {
+			missing = append(missing, k)
+		}
+	}
+	sort.Strings(extra)
+	sort.Strings(missing)
+	if len(extra)+len(missing) > 0 {
+		kinds := map[string]bool{}
+		for _, ev := range proposer.Events {
+			if count[render(ev)] > 0 {
+				kinds[ev.EventType] = true
+			}
+		}
+		ks := make([]string, 0, len(kinds))
+		for k := range kinds {
+			ks = append(ks, k)
+		}
+		sort.Strings(ks)
+		if len(extra) > 6 {
+			extra = extra[:6]
+		}
+		if len(missing) > 6 {
+			missing = missing[:6]
+		}
+		out = append(out, Problem{"proposer-result-differs-from-validated-block what=events", fmt.Sprintf("events only in the proposer's result (types %v): %v; events only in the validated result: %v", ks, extra, missing)})
+	} else if len(proposer.Events) == len(validated.Events) {
+		for i := range proposer.Events {
+			if render(proposer.Events[i]) != render(validated.Events[i]) {
+				out = append(out, Problem{"proposer-result-differs-from-validated-block what=event-order", fmt.Sprintf("event %d differs: %s vs %s", i, render(proposer.Events[i]), render(validated.Events[i]))})
+				break
+			}
+		}
+	}
+	return
+}
+
+// BookEvents checks canopy's order-book events of one block against the scanned order books: a swap event names an order
+// that is gone afterwards, a lock event an order that is locked for that buyer afterwards (or gone, or reset later in the
+// block), a reset event an order that is unlocked afterwards (or gone, or locked again later in the block).
+func BookEvents(in *BlockInput) (out []Problem, n int) {
+	find := func(st *State, id []byte) *lib.SellOrder {
+		for _, m := range st.Orders {
+			if o := m[string(id)]; o != nil {
+				return o
+			}
+		}
+		return nil
+	}
+	later := func(from int, id []byte, lock bool) bool {
+		for _, ev := range in.Result.Events[from+1:] {
+			switch m := ev.Msg.(type) {
+			case *lib.Event_OrderBookLock:
+				if lock && bytes.Equal(m.OrderBookLock.OrderId, id) {
+					return true
+				}
+			case *lib.Event_OrderBookReset:
+				if !lock && bytes.Equal(m.OrderBookReset.OrderId, id) {
+					return true
+				}
+			}
+		}
+		return false
+	}
+	for i, ev := range in.Result.Events {
+		switch m := ev.Msg.(type) {
+		case *lib.Event_OrderBookSwap:
+			n++
+			if o := find(in.Cur, m.OrderBookSwap.OrderId); o != nil {
+				out = append(out, Problem{"order-event-contradicts-order-book event=swap", fmt.Sprintf("order %x is reported closed (sold %d) but is still in the book", m.OrderBookSwap.OrderId, m.OrderBookSwap.SoldAmount)})
+			}
+		case *lib.Event_OrderBookLock:
+			n++
+			o := find(in.Cur, m.OrderBookLock.OrderId)
+			if o != nil && !bytes.Equal(o.BuyerReceiveAddress, m.OrderBookLock.BuyerReceiveAddress) && !later(i, m.OrderBookLock.OrderId, false) {
+				out = append(out, Problem{"order-event-contradicts-order-book event=lock", fmt.Sprintf("order %x is reported locked for %x but the book says buyer=%x", m.OrderBookLock.OrderId, m.OrderBookLock.BuyerReceiveAddress, o.BuyerReceiveAddress)})
+			}
+		case *lib.Event_OrderBookReset:
+			n++
+			o := find(in.Cur, m.OrderBookReset.OrderId)
+			if o != nil && len(o.BuyerReceiveAddress) != 0 && !later(i, m.OrderBookReset.OrderId, true) {
+				out = append(out, Problem{"order-event-contradicts-order-book event=reset", fmt.Sprintf("order %x is reported reset but the book says buyer=%x", m.OrderBookReset.OrderId, o.BuyerReceiveAddress)})
+			}
+		}
+	}
+	return
+}
